@@ -173,3 +173,45 @@ def scenarios():
     out.append(hashdata('BinaryDocument', 'doc', fresh_signature=True))
     out.append(injectivity())
     return out
+
+
+def uid_hashdata():
+    """PGPUID.hashdata: for a user id, the packet's octets after its header - whatever the header form, and also when the body is EMPTY
+    (the empty user id is a legitimate subject); for a user attribute, the body as it is kept"""
+    label = 'C01/PGPUID.hashdata'
+    UIDC = 'pgpy.pgp.PGPUID'
+
+    def gen(repo):
+        obls, funcs = [], []
+        for kind in ('uid', 'ua'):
+            r = scn.Run(repo, UIDC, 'hashdata', '%s[%s]' % (label, 'user id' if kind == 'uid' else 'user attribute'))
+            ex, st = r.ex, r.st
+            HDR, BODY = z3.Const('HEADER', B), z3.Const('BODY', B)
+            st.pc += [z3.Length(HDR) >= 2, z3.Length(HDR) <= 6, z3.Length(BODY) >= 0]
+            me = E.VObj(UIDC, 'uid')
+            r.hook(UIDC, 'is_uid', scn.const(E.VBool(kind == 'uid')))
+            r.hook(UIDC, 'is_ua', scn.const(E.VBool(kind == 'ua')))
+            pcls = 'pgpy.packet.packets.UserID' if kind == 'uid' else 'pgpy.packet.packets.UserAttribute'
+            r.set('uid', '_uid', E.VObj(pcls, 'pkt'))
+            r.set('pkt', 'header', E.VObj('pgpy.packet.types.Header', 'hdr'))
+            r.set('hdr', '_len', E.VInt(z3.Length(BODY)))
+            r.hook('pgpy.packet.types.Header', '__len__', scn.method_hook(lambda ex, st, o, a: [(st, E.VInt(z3.Length(HDR)))]))
+            r.hook(pcls, '__bytearray__', scn.method_hook(lambda ex, st, o, a: [(st, ex.new_buf(st, z3.Concat(HDR, BODY)))]))
+            r.hook(pcls, 'body', scn.const(E.VBytes(BODY)))
+            for pi, (s, v) in enumerate(r.call(me, [])):
+                if isinstance(v, E.Raise):
+                    r.oblige(s, 'safety(%s)/p%d' % (v.exc.split(':')[0], pi), z3.BoolVal(False), v.where)
+                    continue
+                r.oblige(s, 'the-octets-after-the-packet-header(also-none)/p%d' % pi, ex.seq(v, s) == BODY if isinstance(v, (E.VBytes, E.VBuf)) else z3.BoolVal(False))
+            res = r.result()
+            obls += res['obligations']
+            funcs += res['funcs']
+        return {'obligations': obls, 'funcs': funcs, 'paths': 0}
+    return Scenario(label, UIDC + '.hashdata', gen, props=('C01', 'C02', 'C15'))
+
+
+_base_scn_hd = scenarios
+
+
+def scenarios():
+    return _base_scn_hd() + [uid_hashdata()]
